@@ -7,7 +7,7 @@
    real templates never panic - is what the correspondence check establishes
    on generated data, in both colour modes. *)
 From Coq Require Import String.
-From F1 Require Import Base.Prelude Base.F64 Base.GoStr Base.Fmt Model.Views Proofs.ViewsProofs.
+From F1 Require Import Base.Prelude Base.F64 Base.GoStr Base.Fmt Model.Views Proofs.ViewsProofs Proofs.PercentProofs.
 
 (* Every count is printed in decimal and decimal printing is exact: reading
    the digits back gives the number, whatever follows. *)
@@ -46,6 +46,25 @@ Theorem C19_log_counts : forall p r,
   fst (fst (log_result r)) = rd_failed r.
 Proof. intros p r. repeat split. Qed.
 Print Assumptions C19_log_counts.
+
+(* Each percentage is that count's share of all iterations: `percent | printf "%0.2f"` prints
+   the hundredths q = f2_centi (100*float64(val)/float64(total)) (fmt_f2_finite), and
+   |q/100 - 100*val/total| <= 0.005 + 10001/2^53 (half a unit of the last printed digit, plus
+   the rounding of the one binary64 division), for every 0 <= val <= total < 2^46. *)
+Theorem C19_percent_close : forall val total,
+  0 <= val <= total -> 0 < total < 2 ^ 46 ->
+  percent_str val total = fmt_f2 (percent_f val total) /\
+  let q := f2_centi (percent_f val total) in
+  2 ^ 53 * Z.abs (q * total - 10000 * val) <= 2 ^ 52 * total + 10001 * total.
+Proof.
+  intros val total Hv Ht. split; [reflexivity|]. exact (percent_close_Z val total Hv Ht).
+Qed.
+Print Assumptions C19_percent_close.
+
+Example C19_percent_example :
+  percent_str 1 3 = s_of "33.33" /\ f2_centi (percent_f 1 3) = 3333 /\
+  percent_str 2 3 = s_of "66.67" /\ percent_str 0 7 = s_of "0.00" /\ percent_str 7 7 = s_of "100.00".
+Proof. vm_compute. repeat split; reflexivity. Qed.
 
 Example C19_example :
   let p := {| pd_period_stats := {| ds_avg := 1500000; ds_cnt := 12; ds_min := 900000; ds_max := 2000000000 |};
